@@ -3,7 +3,7 @@
    code by fetch counters on Polars LazyFrame and Ibis tables (tools/props/C03.py).  That the single aggregate
    result has one row per variant (one row in total for power analysis) is part of the plan semantics of C01. *)
 From Coq Require Import ZArith String List Bool.
-From TT Require Import genP.ExperimentPairs model.Experiment proofs.C03_C12_experiment.
+From TT Require Import genP.ExperimentPairs model.Experiment proofs.C03_C12_experiment proofs.C03_shape.
 Import ListNotations.
 
 (* only aggregated metrics: exactly one fetch - the aggregate query grouped by the variant column - however many
@@ -57,3 +57,18 @@ Print Assumptions C03_row_level_only.
 Print Assumptions C03_row_level_fetch_columns.
 Print Assumptions C03_solve_power_one_query.
 Print Assumptions C03_solve_power_trace_shape.
+
+(* any mixture of metrics: at most one aggregate query and at most one row-level fetch, both issued first (read_data is
+   the aggregate query, if the merged request is non-empty, followed by the row-level fetch, if any column is declared);
+   the variants are read separately only when neither exists; every further access to the data is made by a metric that
+   the shared reads do not serve (it is not aggregated / row-level, or it declares nothing), once per compared pair *)
+Theorem C03_trace_shape_for_any_experiment ms variant control av variants tr :
+  analyze_trace ms variant control av variants = Some tr ->
+  exists calls,
+    tr = read_data ms variant ++ (if has_aggr ms || has_gran ms then [] else [FVariants variant]) ++ calls /\
+    (forall f, In f calls -> exists j m pair, f = FPlain j pair /\ nth_error ms j = Some m /\ self_served ms m /\
+                                              In pair (variant_pairs control variants)) /\
+    length (filter is_shared_read tr) <= 2 /\
+    (forall f, In f (read_data ms variant) -> is_shared_read f = true).
+Proof. exact (analyze_trace_shape ms variant control av variants tr). Qed.
+Print Assumptions C03_trace_shape_for_any_experiment.
